@@ -661,7 +661,7 @@ func main() {
 			for _, l := range p.lens {
 				tails := [][]byte{{}, r.Bytes(r.Range(1, 4))}
 				if l > 70000 && l <= p.limit {
-					tails = tails[:1] // an in-limit huge length with a non-empty tail would be a huge zero-padded array today
+					tails = tails[:1] // keep huge in-limit lengths to the empty tail (a regression to zero padding would produce a huge observation)
 				}
 				if l > 0 && l <= 4096 {
 					tails = append(tails, r.Bytes(int(l)+r.Range(0, 2))) // a complete body: accepted iff l is within the limit
